@@ -6,6 +6,7 @@ import (
 	"net"
 	"sync"
 
+	"github.com/buildbuildio/pebbles/common"
 	"github.com/buildbuildio/pebbles/executor"
 	"github.com/buildbuildio/pebbles/gqlerrors"
 	"github.com/buildbuildio/pebbles/planner"
@@ -24,6 +25,7 @@ type subscriptionEntry struct {
 	queryerCloseCh chan struct{}
 	respCh         chan *requests.Response
 	executorFn     func(map[string]interface{}) (map[string]interface{}, error)
+	vid            uint64 // verification hook instance id
 
 	sync.Mutex
 }
@@ -35,6 +37,7 @@ func (g *Gateway) newSubscriptionEntry(id string, ctx *planner.PlanningContext) 
 		queryerCloseCh: make(chan struct{}),
 		respCh:         make(chan *requests.Response),
 	}
+	subEntry.vid = common.VerifNew("se")
 
 	// get the plan for specific query
 	plan, err := g.planner.Plan(ctx)
@@ -126,29 +129,39 @@ func (se *subscriptionEntry) prepareResponse(resp *requests.Response) *requests.
 }
 
 func (se *subscriptionEntry) Close() {
+	common.VerifPoint(se.vid, "se.close.enter")
 	se.TryLock()
 	isClosed := se.isClosed
+	common.VerifPoint(se.vid, "se.close.read", isClosed)
 	se.Unlock()
+	common.VerifPoint(se.vid, "se.close.send", isClosed)
 	if isClosed {
 		return
 	}
 	se.closeCh <- struct{}{}
+	common.VerifPoint(se.vid, "se.close.sent")
 }
 
 func (se *subscriptionEntry) Listen(conn net.Conn) {
 	defer func() {
+		common.VerifPoint(se.vid, "se.listen.defer.qclose")
 		se.queryerCloseCh <- struct{}{}
+		common.VerifPoint(se.vid, "se.listen.defer.lock")
 		se.Lock()
+		common.VerifPoint(se.vid, "se.listen.defer.locked")
 		defer se.Unlock()
 		close(se.queryerCloseCh)
 		close(se.closeCh)
 		close(se.respCh)
 		se.isClosed = true
+		common.VerifPoint(se.vid, "se.listen.defer.closed")
 	}()
 
 	for {
+		common.VerifPoint(se.vid, "se.listen.select")
 		select {
 		case resp := <-se.respCh:
+			common.VerifPoint(se.vid, "se.listen.resp", resp == nil)
 			if resp == nil {
 				return
 			}
@@ -161,10 +174,12 @@ func (se *subscriptionEntry) Listen(conn net.Conn) {
 			if err != nil {
 				return
 			}
+			common.VerifPoint(se.vid, "se.listen.write")
 			if err := wsutil.WriteServerText(conn, bResp); err != nil {
 				return
 			}
 		case <-se.closeCh:
+			common.VerifPoint(se.vid, "se.listen.closech")
 			return
 		}
 
